@@ -53,12 +53,43 @@ var QueryHoles = [][2][]Tok{
 	{{{Kind: KBraceL}, {KName, "a"}, {Kind: KParenL}, {KName, "a"}, {Kind: KColon}, {Kind: KDollar}}, {{Kind: KParenR}, {Kind: KBraceR}}},
 }
 
+// QuerySeedDocs: complete, valid executable documents (each hole template
+// filled, plus a few more); tokens are inserted at every position of each.
+func QuerySeedDocs() [][]Tok {
+	var docs [][]Tok
+	for i, h := range QueryHoles {
+		filler := Tok{KInt, "1"}
+		if i >= 8 {
+			filler = Tok{KName, "b"}
+		}
+		docs = append(docs, append(append(append([]Tok(nil), h[0]...), filler), h[1]...))
+	}
+	nm := func(v string) Tok { return Tok{KName, v} }
+	p := func(k int) Tok { return Tok{Kind: k} }
+	docs = append(docs,
+		[]Tok{nm("query"), nm("a"), p(KParenL), p(KDollar), nm("a"), p(KColon), p(KBracketL), nm("a"), p(KBang), p(KBracketR), p(KBang), p(KEquals), p(KBracketL), {KInt, "1"}, p(KBracketR), p(KAt), nm("a"), p(KParenR), p(KAt), nm("a"), p(KBraceL), nm("a"), p(KBraceR)},
+		[]Tok{p(KBraceL), nm("a"), p(KColon), nm("b"), p(KParenL), nm("a"), p(KColon), p(KBraceL), nm("a"), p(KColon), p(KDollar), nm("a"), p(KBraceR), p(KParenR), p(KAt), nm("a"), p(KBraceL), nm("a"), p(KBraceR), p(KBraceR)},
+		[]Tok{p(KBraceL), p(KSpread), nm("a"), p(KSpread), nm("on"), nm("a"), p(KBraceL), nm("a"), p(KBraceR), p(KSpread), p(KBraceL), nm("a"), p(KBraceR), p(KBraceR), nm("fragment"), nm("a"), nm("on"), nm("a"), p(KAt), nm("a"), p(KBraceL), nm("a"), p(KBraceR)},
+		[]Tok{nm("mutation"), p(KBraceL), nm("a"), p(KBraceR), nm("subscription"), nm("a"), p(KBraceL), nm("a"), p(KBraceR)},
+	)
+	return docs
+}
+
 func queryStream() ([]Tok, *ast.Source) {
 	k := verifrt.Param("k", 3)
 	pre := QueryPrefixes[verifrt.Param("prefix", 0)]
 	var suf []Tok
 	if h := verifrt.Param("hole", -1); h >= 0 {
 		pre, suf = QueryHoles[h][0], QueryHoles[h][1]
+	}
+	if d := verifrt.Param("doc", -1); d >= 0 {
+		doc := QuerySeedDocs()[d]
+		total := len(doc) + k
+		verifrt.SetOpt("unwind", total+3)
+		verifrt.SetOpt("depth", 8*total+40)
+		verifrt.SetOpt("merge", verifrt.Param("merge", 0))
+		toks := InsertAtEveryGap(doc, k, Alphabet(QueryNames, verifrt.Param("invalid", 0) != 0))
+		return toks, Install(toks)
 	}
 	verifrt.SetOpt("unwind", len(pre)+k+len(suf)+3)
 	verifrt.SetOpt("depth", 8*(len(pre)+k+len(suf))+40)
